@@ -148,9 +148,13 @@ def main(ctx):
     surro = list(short_strings(['\ud800', '\udfff', '%', 'a', '4', '+'], 3))
     extra = [a + b for a in EXTRA for b in ['', '%', '4', '+']] + [p + c + q for c in EXTRA for p in ['%', '%4', 'a']
                                                                     for q in ['', '1', '%41']]
-    decode_part(ctx, uri, model, strings + rnd + extra + surro)
+    # near-minimal inputs for the >= 8 token path: seven valid escapes, then every short tail
+    longp = ['%41' * 7 + t for t in short_strings(ALPHABET, 2 if ctx.tier == 'quick' else 3)]
+    longp += [t + '%e2%82%ac' * 3 for t in short_strings(ALPHABET[:8], 2)]
+    ctx.cov['long_path'] = '%d strings with >= 8 tokens and an exhaustive short tail/head' % len(longp)
+    decode_part(ctx, uri, model, strings + longp + rnd + extra + surro)
     enc_strings = strings
-    encode_part(ctx, uri, model, enc_strings + rnd + extra + surro)
+    encode_part(ctx, uri, model, enc_strings + longp + rnd + extra + surro)
     host_part(ctx, uri, model)
     unquote_part(ctx, uri, model)
 
